@@ -4,6 +4,7 @@ package pfcpiface
 
 import (
 	"fmt"
+	"google.golang.org/grpc/connectivity"
 	"io"
 	"net"
 	"net/http"
@@ -206,6 +207,7 @@ func TestVerif_C12(t *testing.T) {
 		scens = append(scens, scen{"features", f, 0, "up"}, scen{"features", f, 0, "down"})
 	}
 	scens = append(scens, scen{"updown", 0, 0, "bess"}, scen{"updown", 0, 0, "up4-never-connected"})
+	scens = append(scens, scen{"hb-busy", 3, 4, ""}, scen{"hb-busy", 2, 3, ""}, scen{"hb-portdown", 2, 3, ""}, scen{"hb-portdown", 3, 3, ""})
 	reps := vEnv.pick(3, 120)
 	idx := 0
 	for rep := 0; rep < reps; rep++ {
@@ -222,6 +224,10 @@ func TestVerif_C12(t *testing.T) {
 			switch sc.kind {
 			case "hb-loss", "hb-odd":
 				c12Heartbeat(res, sc.kind, sc.n, sc.k, sc.var_, respTO, hbInt, desc)
+			case "hb-busy":
+				c12Busy(res, sc.n, respTO, desc)
+			case "hb-portdown":
+				c12PortDown(res, sc.n, respTO, desc)
 			case "assoc-loss":
 				c12AgentAssoc(res, sc.n, sc.k, respTO, desc)
 			case "peer-hb":
@@ -676,6 +682,19 @@ func c12UpDown(res *vResult, variant string, desc map[string]interface{}) {
 	addr := a.bess.addr
 	a.bess.stop()
 	vWaitUntil(3*time.Second, func() bool { return !a.bess.connected() })
+	// Once the agent's own gRPC channel has noticed the loss (it has left READY; the listener is closed, so it cannot become
+	// READY again), "down" is stable from the agent's point of view too: the very first Association Setup must be rejected.
+	// (The wait uses the channel state only to know when to ask, never as the verdict.)
+	if bp, ok := a.iface.fp.(*bess); ok && bp.conn != nil {
+		if vWaitUntil(5*time.Second, func() bool { return bp.conn.GetState() != connectivity.Ready }) {
+			time.Sleep(20 * time.Millisecond)
+			seq++
+			if c, ok := setup(p, seq); ok && c == ie.CauseRequestAccepted {
+				res.violate("C12.R10", "accepted-while-down first-request", "the datapath server is stopped, no transport is left at the server and the agent's channel has left READY, but the first Association Setup Request after the loss was accepted", w)
+			}
+			res.event("first_setup_after_datapath_loss_checked", 1)
+		}
+	}
 	stable := false
 	for try := 0; try < 25 && !stable; try++ {
 		seq++
@@ -721,4 +740,194 @@ func c12UpDown(res *vResult, variant string, desc map[string]interface{}) {
 		}
 	}
 	res.event("updown_states_checked", 1)
+}
+
+// c12Busy: the peer's own Heartbeat Request arrives while the agent's heartbeat is outstanding (its first n transmissions
+// went unanswered); the last transmission is answered right afterwards. The peer's heartbeat must be answered and must
+// postpone the agent's next heartbeat like any other. The interval is chosen larger than the whole retransmission window,
+// so no timer tick falls into it; the rule is judged only if the window, as measured at the peer, really ended 100 ms
+// before the next tick was due.
+func c12Busy(res *vResult, n int, respTO time.Duration, desc map[string]interface{}) {
+	hbInt := time.Duration(n)*respTO + 150*time.Millisecond
+	o := vDefaultOpts(false, vEnv.addr(1))
+	o.HB, o.HBInterval, o.RespTimeout, o.MaxRetries = true, hbInt, respTO, uint8(n)
+	a := c12Agent(o, res)
+	if a == nil {
+		return
+	}
+	defer a.stop(vStopWatchdog)
+	p, err := c12NewPeer(vEnv.addr(2)+":0", o.N4)
+	if err != nil {
+		res.inconclusive("peer: " + err.Error())
+		return
+	}
+	defer p.close()
+	var firstSeq uint32
+	var haveFirst bool
+	var firstAt, peerHBAt time.Time
+	const peerSeq = 0x4242
+	p.setPolicy(func(m message.Message, nth int) [][]byte {
+		hq, ok := m.(*message.HeartbeatRequest)
+		if !ok {
+			return nil
+		}
+		if !haveFirst {
+			firstSeq, haveFirst, firstAt = hq.SequenceNumber, true, time.Now()
+		}
+		if hq.SequenceNumber != firstSeq {
+			return [][]byte{c12HBResp(p, hq.SequenceNumber)}
+		}
+		if nth == n+1 {
+			peerHBAt = time.Now()
+			return [][]byte{vMarshal(message.NewHeartbeatRequest(peerSeq, ie.NewRecoveryTimeStamp(p.ts), nil)), c12HBResp(p, hq.SequenceNumber)}
+		}
+		return nil
+	})
+	if p.request(vMarshal(message.NewAssociationSetupRequest(1, ie.NewNodeID(p.nodeID, "", ""), ie.NewRecoveryTimeStamp(p.ts))), 1, 3*time.Second) == nil {
+		res.inconclusive("association setup unanswered")
+		return
+	}
+	time.Sleep(hbInt + time.Duration(n)*respTO + hbInt + 300*time.Millisecond)
+	rx := p.snapshot()
+	p.mu.Lock()
+	fSeq, hFirst, fAt, phAt := firstSeq, haveFirst, firstAt, peerHBAt
+	p.mu.Unlock()
+	w := map[string]interface{}{"scenario": desc, "resp_timeout_ms": respTO.Milliseconds(), "hb_interval_ms": hbInt.Milliseconds()}
+	if !hFirst || phAt.IsZero() {
+		res.note("hb-busy: the agent's heartbeat did not reach its last transmission within the observation window; not judged")
+		return
+	}
+	c12CheckTransmissions(res, rx, fSeq, message.MsgTypeHeartbeatRequest, n+1, respTO, &phAt, w, "heartbeat")
+	answered := false
+	var next time.Time
+	for _, r := range rx {
+		switch m := r.Msg.(type) {
+		case *message.HeartbeatResponse:
+			if m.SequenceNumber == peerSeq {
+				answered = true
+			}
+		case *message.HeartbeatRequest:
+			if m.SequenceNumber != fSeq && r.At.After(phAt) && next.IsZero() {
+				next = r.At
+			}
+		}
+	}
+	if !answered {
+		res.violate("C12.R6", "peer-heartbeat-unanswered-while-agent-heartbeat-outstanding", "a Heartbeat Request of the peer that arrived while the agent's own heartbeat was outstanding was not answered", w)
+	}
+	if a.conn(p.conn.LocalAddr().String()) == nil {
+		res.violate("C12.R4", "answered-peer-association-dropped", fmt.Sprintf("transmission %d of the heartbeat was answered but the association is gone", n+1), w)
+	}
+	if phAt.Sub(fAt) < hbInt-100*time.Millisecond {
+		res.event("postponements_judged_with_agent_heartbeat_outstanding", 1)
+		if !next.IsZero() && next.Sub(phAt) < hbInt/2 {
+			res.violate("C12.R7", "agent-heartbeat-not-postponed while-outstanding", fmt.Sprintf("the peer's Heartbeat Request arrived while the agent's heartbeat was outstanding (answered right afterwards); the agent sent its next Heartbeat Request %v later although the interval is %v and a peer heartbeat must postpone it", next.Sub(phAt), hbInt), w)
+		}
+	} else {
+		res.note("hb-busy: the retransmission window ran into the next timer tick (loaded machine); postponement not judged")
+	}
+}
+
+// c12PortDown: the peer's port is closed at the moment one transmission of the agent's heartbeat arrives (the agent's
+// connected socket reports the ICMP port-unreachable as a read error), and the peer is back and answers the next
+// transmission. A transmission was answered, so the peer is not dead and its sessions stay. If the timing slips and no
+// transmission gets answered, nothing is judged.
+func c12PortDown(res *vResult, n int, respTO time.Duration, desc map[string]interface{}) {
+	hbInt := 250 * time.Millisecond
+	o := vDefaultOpts(false, vEnv.addr(1))
+	o.HB, o.HBInterval, o.RespTimeout, o.MaxRetries = true, hbInt, respTO, uint8(n)
+	a := c12Agent(o, res)
+	if a == nil {
+		return
+	}
+	defer a.stop(vStopWatchdog)
+	p, err := vNewPeer(vEnv.addr(2), o.N4)
+	if err != nil {
+		res.inconclusive("peer: " + err.Error())
+		return
+	}
+	p.autoHB = false
+	local := p.local
+	closed := false
+	defer func() {
+		if !closed {
+			p.close()
+		}
+	}()
+	if c01Request(p, p.assocSetup(1), 1) == nil {
+		res.inconclusive("association setup unanswered")
+		return
+	}
+	if m := c01Request(p, p.establish(c10Session(2, 0x56, 2)), 2); m == nil || vDecodeReply(m).Cause != ie.CauseRequestAccepted {
+		res.inconclusive("hb-portdown: establishment not accepted")
+		return
+	}
+	w := map[string]interface{}{"scenario": desc, "resp_timeout_ms": respTO.Milliseconds()}
+	// first transmission of the agent's first heartbeat: not answered; the port goes away
+	var seq uint32
+	got := false
+	deadline := time.Now().Add(3 * time.Second)
+	for time.Now().Before(deadline) && !got {
+		raw, ok := p.recvRaw(100 * time.Millisecond)
+		if !ok {
+			continue
+		}
+		if m, err := message.Parse(raw); err == nil {
+			if hq, ok := m.(*message.HeartbeatRequest); ok {
+				seq, got = hq.SequenceNumber, true
+			}
+		}
+	}
+	if !got {
+		res.inconclusive("hb-portdown: no heartbeat from the agent")
+		return
+	}
+	t1 := time.Now()
+	p.close()
+	closed = true
+	time.Sleep(respTO + respTO/2) // transmission 2 meets the closed port
+	p2, err := vNewPeerAt(local, o.N4)
+	if err != nil {
+		res.note("hb-portdown: the peer's port could not be bound again: " + err.Error())
+		return
+	}
+	defer p2.close()
+	reopenedAfter := time.Since(t1)
+	p2.autoHB = false
+	answered := 0
+	end := time.Now().Add(time.Duration(n)*respTO + 2*hbInt + 300*time.Millisecond)
+	for time.Now().Before(end) {
+		raw, ok := p2.recvRaw(50 * time.Millisecond)
+		if !ok {
+			continue
+		}
+		if m, err := message.Parse(raw); err == nil {
+			if hq, ok := m.(*message.HeartbeatRequest); ok {
+				p2.send(vMarshal(message.NewHeartbeatResponse(hq.SequenceNumber, ie.NewRecoveryTimeStamp(p2.startTS))))
+				if hq.SequenceNumber == seq {
+					answered++
+				}
+			}
+		}
+	}
+	res.event("port_down_scenarios", 1)
+	if answered == 0 {
+		// With 1+3 transmissions spaced by resp_timeout and the port back less than 1.8 resp_timeouts after the first one
+		// was received, the fourth transmission (sent no earlier than 3 resp_timeouts after the first) had to find the port
+		// open - unless the agent declared the peer dead before all transmissions went unanswered.
+		if n >= 3 && reopenedAfter < respTO*18/10 && (a.conn(local) == nil || a.bess.snapshot().empty()) {
+			res.event("port_down_scenarios_judged", 1)
+			res.violate("C12.R1", "peer-declared-dead-before-all-transmissions port-down", fmt.Sprintf("the peer's port was closed when the second transmission of the agent's heartbeat arrived and open again %v after the first (resp_timeout %v, 1+%d transmissions): no further transmission was sent and the peer's sessions were removed", reopenedAfter, respTO, n), w)
+			return
+		}
+		res.note("hb-portdown: no transmission of the heartbeat reached the re-opened port (timing); not judged")
+		return
+	}
+	res.event("port_down_scenarios_judged", 1)
+	if a.bess.snapshot().empty() {
+		res.violate("C12.R4", "answered-peer-sessions-removed port-down", fmt.Sprintf("the peer's port was closed when one transmission of the agent's heartbeat arrived, and a later transmission (of 1+%d) was answered - but the peer's session was removed", n), w)
+	}
+	if a.conn(local) == nil {
+		res.violate("C12.R4", "answered-peer-association-dropped port-down", "a heartbeat transmission was answered after the peer's port had been unreachable for one transmission, but the association is gone", w)
+	}
 }
